@@ -62,6 +62,12 @@ func bandwidth(segments []muxerSegment) (int, int) {
 
 	for _, seg := range segments {
 		if _, ok := seg.(*muxerGap); !ok {
+			// a segment can have a zero duration (forced rotation on a sample
+			// with the same DTS of the previous one). Skip it to avoid a division by zero.
+			if seg.getDuration() <= 0 {
+				continue
+			}
+
 			bandwidth := 8 * seg.getSize() * uint64(time.Second) / uint64(seg.getDuration())
 			if bandwidth > maxBandwidth {
 				maxBandwidth = bandwidth
@@ -69,6 +75,10 @@ func bandwidth(segments []muxerSegment) (int, int) {
 			sizes += seg.getSize()
 			durations += seg.getDuration()
 		}
+	}
+
+	if durations <= 0 {
+		return 0, 0
 	}
 
 	averageBandwidth := 8 * sizes * uint64(time.Second) / uint64(durations)
